@@ -122,6 +122,12 @@ def render_forwarding(o, i, fl, placement):
         L += ['def inner(%s):' % absig.render_params(i), '    return locals()',
               'class K(object):', '    def w0(%s):' % absig.render_params(hp + list(o)), '        return ' + call_text('h', o, fl),
               'w = functools.partial(K().w0, inner)', '']
+    elif placement == 'auto_class_call':
+        # the subject is a CLASS whose instances forward when called: calling the class runs the constructor (which takes nothing here),
+        # whatever __call__ would accept
+        L += ['def inner(%s):' % absig.render_params(i), '    return locals()',
+              'class K(object):', '    def __init__(self):', '        pass',
+              '    def __call__(%s):' % absig.render_params(with_self(o)), '        return ' + call_text('inner', o, fl), '']
     elif placement == 'auto_hint':
         # behind a modifiers decorator: discovery runs on the wrapped function's source with the rewritten signature (the hint protocol)
         L += ['from sigtools import modifiers', 'def inner(%s):' % absig.render_params(i), '    return locals()',
